@@ -77,7 +77,9 @@ func (s *PortManager) PickEphemeralPort(testPort func(p uint16) (bool, *tcpip.Er
 	offset := uint16(rand.Int31n(int32(count)))
 
 	for i := uint16(0); i < count; i++ {
-		port = FirstEphemeral + (offset+i)%count
+		// offset+i can reach 2*count-2 > MaxUint16: do the modular step in 32 bits
+		// so that the walk visits every port of the range exactly once.
+		port = FirstEphemeral + uint16((uint32(offset)+uint32(i))%uint32(count))
 		ok, err := testPort(port)
 		if err != nil {
 			return 0, err
